@@ -1,8 +1,12 @@
 #!/bin/bash
 # seedtest.sh <seed-dir-name> <property-id> [tier]: apply a seeded patch to /repo, run the check, undo the patch.
+# The evidence file of the property is saved and restored: committed evidence must come from the unchanged tree.
 S=/verif/seeded/$1; P=$2; T=${3:-quick}
+EV=/verif/evidence/$P.json
+[ -f "$EV" ] && cp "$EV" "/verif/build/evidence_backup_$P.json"
 cd /repo && git apply "$S/patch.diff" || { echo "patch does not apply"; exit 3; }
 cd /verif && ./check $P --tier $T > /verif/build/seedtest_$1_$P.log 2>&1; rc=$?
 git -C /repo checkout -- .
+[ -f "/verif/build/evidence_backup_$P.json" ] && mv "/verif/build/evidence_backup_$P.json" "$EV"
 echo "SEEDTEST $1 check=$P exit=$rc $(grep -c '^VIOLATION' /verif/build/seedtest_$1_$P.log) violation-lines"
 grep -E "^(VIOLATION|counterexample|INCONCLUSIVE)" /verif/build/seedtest_$1_$P.log | cut -c1-300 | head -4
